@@ -488,3 +488,38 @@ def first_diff(a, b):
         i = min(len(a), len(b))
         return i, (a[i] if i < len(a) else None), (b[i] if i < len(b) else None)
     return None
+
+
+# ------------------------------------------------------------------ C11 shape
+
+def shape(stmts):
+    """statement count, get_type per statement, tree of node classes / leaf types, whitespace leaves removed."""
+    def node_shape(node):
+        if hasattr(node, 'tokens'):
+            return (type(node).__name__, tuple(s for s in (node_shape(c) for c in node.tokens) if s is not None))
+        if is_ws_type(node.ttype):
+            return None
+        return tname(node.ttype)
+    return tuple((s.get_type(), node_shape(s)) for s in stmts)
+
+
+def shape_diff(a, b, path='root'):
+    """human-readable first difference between two shapes"""
+    if a == b:
+        return None
+    if isinstance(a, tuple) and isinstance(b, tuple) and len(a) == 2 and len(b) == 2 \
+            and isinstance(a[0], str) and isinstance(b[0], str) and isinstance(a[1], tuple) and isinstance(b[1], tuple):
+        if a[0] != b[0]:
+            return f'{path}: {a[0]} vs {b[0]}'
+        for i, (x, y) in enumerate(zip(a[1], b[1])):
+            d = shape_diff(x, y, f'{path}/{a[0]}[{i}]')
+            if d:
+                return d
+        return f'{path}/{a[0]}: {len(a[1])} vs {len(b[1])} children'
+    if isinstance(a, tuple) and isinstance(b, tuple):
+        for i, (x, y) in enumerate(zip(a, b)):
+            d = shape_diff(x, y, f'{path}[{i}]')
+            if d:
+                return d
+        return f'{path}: {len(a)} vs {len(b)} items'
+    return f'{path}: {a!r} vs {b!r}'
